@@ -158,6 +158,24 @@ def gen_cases(ctx):
         for plen in range(1, len(stream)):
             for cuts in compositions(plen):
                 cases.append(("prefix", frames, cut(stream[:plen], cuts), True))
+    # payloads that themselves read as length-prefixed segments: a chunk cut exactly around one must still be
+    # taken as bytes of the frame being assembled (nothing about a chunk's own content decides framing)
+    inner = [wire(b"A"), wire(b"AB"), wire(b"\x00"), wire(b"\x00\x00\x01"), b"\x00" + wire(b"A"),
+             wire(b"A") + b"\x00", wire(wire(b"Z"))]
+    for f in inner:
+        stream = wire(f)
+        for cuts in compositions(len(stream)):
+            cases.append(("hdrlike", [f], cut(stream, cuts), True))
+    for f in inner:
+        for g in inner:
+            stream = wire(b"q") + wire(f) + wire(g)
+            allc = list(compositions(len(stream))) if len(stream) <= 10 else None
+            for _ in range(60 if ctx.tier == "quick" else 600):
+                cuts = sorted(set(rng.randint(1, len(stream) - 1) for _ in range(rng.randint(1, 6))))
+                # aim at the inner boundaries: after each header, around each inner payload
+                if rng.random() < .7:
+                    cuts = sorted(set(cuts + [4, 7, 7 + len(f)] + ([7 + len(f) + 3] if rng.random() < .5 else [])))
+                cases.append(("hdrlike", [b"q", f, g], cut(stream, [c for c in cuts if 0 < c < len(stream)]), True))
     # random larger
     nrand = 300 if ctx.tier == "quick" else 6000
     for i in range(nrand):
